@@ -813,7 +813,8 @@ class SymEnv:
                 self.inconclusive.append((name, 'False on a path of unknown feasibility'))
                 return None
             self.stats.refuted += 1
-            self.failures.append(Failure(name, list(self.trace), s.model(), 'False (decided by execution)', detail))
+            if len(self.failures) < 400:
+                self.failures.append(Failure(name, list(self.trace), s.model(), 'False (decided by execution)', detail))
             return False
         t = z3.simplify(_b(cond))
         if z3.is_true(t):
@@ -833,7 +834,8 @@ class SymEnv:
             return True
         if r == z3.sat:
             self.stats.refuted += 1
-            self.failures.append(Failure(name, list(self.trace), s.model(), _short(t), detail))
+            if len(self.failures) < 400:       # keep memory bounded when a broken tree refutes thousands of paths
+                self.failures.append(Failure(name, list(self.trace), s.model(), _short(t), detail))
             self._sample(name, t, 'refuted', ms)
             return False
         self.stats.inconclusive += 1
